@@ -172,6 +172,9 @@ def run(ctx: Ctx) -> None:
         k = rng.randrange(3, 8)
         sels.append(sorted(set(rng.sample(pats, min(len(pats), (k + 1) // 2)) + rng.sample(names, k // 2 + 1))))
     pairs = [sorted(p) for p in itertools.combinations(names, 2)]
+    # names one of which contains the other (NameExpr / NamedTupleExpr, Var / TypeVarExpr, TupleExpr / NamedTupleExpr ...): always generated
+    sels += [p for p in pairs if p[0] in p[1] or p[1] in p[0]]
+    sels += [sorted([a, b2, c]) for a, b2 in pairs if a in b2 or b2 in a for c in names[:1] if c not in (a, b2)]
     sels += pairs if ctx.tier == "thorough" else rng.sample(pairs, 120)
     sels += [sorted(rng.sample(names, rng.randrange(3, 9))) for _ in range(ctx.budget(30, 300))]
     td = Path(tempfile.mkdtemp(prefix="c19-"))
